@@ -30,6 +30,7 @@ IMPORTS = """(import (scheme base) (scheme write) (scheme char) (scheme file) (s
   (only (chibi) string-cursor-offset string-size)
   (only (chibi io) utf8->string!)
   (only (chibi ast) immutable-string)
+  (only (chibi filesystem) open open/read) (only (chibi) open-input-file-descriptor)
   (prefix (chibi string) cs:) (prefix (srfi 130) s130:))"""
 
 HEADER = r"""
@@ -1210,14 +1211,15 @@ def gen_port_cases(rng, n, tmpdir):
     # (file input is refilled 4092 bytes at a time: SEXP_PORT_BUFFER_SIZE - BUF_START; output buffers hold 4096 bytes)
     combos = []
     for kind in ("file-peek", "file-read-char", "file-read-string", "file-read-line", "out-char", "out-string", "out-mixed",
-                 "file-write-char", "in-peek", "in-read-char", "in-read-string", "in-read-line"):
+                 "file-write-char", "in-peek", "in-read-char", "in-read-string", "in-read-line",
+                 "fd-peek", "fd-read-char", "fd-read-string"):
         for w in (1, 2, 3, 4):
             for split in range(0, w):
                 if split == 0 and w > 1 and not kind.startswith("in-"):
                     continue
                 if kind.startswith("in-") and split not in (0, 1):
                     continue
-                bounds = (4092, 8184) if kind.startswith("file-") and kind != "file-write-char" else (4096,)
+                bounds = (4092, 8184) if kind.startswith(("file-", "fd-")) and kind != "file-write-char" else (4096,)
                 for bound in bounds:
                     combos.append((kind, w, split, bound))
     rng.shuffle(combos)
@@ -1261,16 +1263,16 @@ def gen_port_cases(rng, n, tmpdir):
                     "(write-char (string-ref s %d) p) (write-char (string-ref s %d) p) (write-string s p %d) "
                     "(write (orle (get-output-string p))))" % (k, k, k + 1, k + 2, k + 3))
             exp = orle(cps)
-        elif kind in ("in-read-char", "file-read-char"):
+        elif kind in ("in-read-char", "file-read-char", "fd-read-char"):
             body = ("(let lp ((acc '())) (let ((c (read-char p))) (if (eof-object? c) "
                     "(write (rle (reverse acc))) (lp (cons (char->integer c) acc)))))")
             exp = wr_rle(cps)
-        elif kind in ("in-peek", "file-peek"):
+        elif kind in ("in-peek", "file-peek", "fd-peek"):
             body = ("(let lp ((acc '())) (let* ((c (peek-char p)) (d (read-char p))) (if (eof-object? c) "
                     "(write (list (eof-object? d) (rle (reverse acc)))) "
                     "(lp (cons (char->integer d) (cons (char->integer c) acc))))))")
             exp = "(#t %s)" % wr_rle([x for c_ in cps for x in (c_, c_)])
-        elif kind in ("in-read-string", "file-read-string"):
+        elif kind in ("in-read-string", "file-read-string", "fd-read-string"):
             k1 = len(lead) + pad + rng.choice((-1, 0, 1))
             body = ("(let* ((a (read-string %d p)) (b (read-string 3 p)) (c (read-string 100000 p)) (d (read-string 5 p))) "
                     "(write (list (orle a) (rd b) (if (eof-object? c) -1 (orle c)) (rd d))))" % k1)
@@ -1310,6 +1312,12 @@ def gen_port_cases(rng, n, tmpdir):
             form = ("(%%case* %s (flush-output-port) (let* ((s %s)) (%%obs-try (lambda () "
                     "(let ((o (open-output-file %s))) (write-string s o) (close-output-port o)) "
                     "(let ((p (open-input-file %s))) %s (close-input-port p))))))" % (cid, mk, scm_str(path), scm_str(path), body))
+        elif kind.startswith("fd-"):
+            # a port on a bare file descriptor has no FILE* stream: it is refilled by the interpreter's own buffering code
+            form = ("(%%case* %s (flush-output-port) (let* ((s %s)) (%%obs-try (lambda () "
+                    "(let ((o (open-output-file %s))) (write-string s o) (close-output-port o)) "
+                    "(let ((p (open-input-file-descriptor (open %s open/read)))) %s (close-input-port p))))))"
+                    % (cid, mk, scm_str(path), scm_str(path), body))
         else:
             form = "(%%case* %s (flush-output-port) (let* ((s %s)) (%%obs-try (lambda () %s))))" % (cid, mk, body)
         line1 = cps[:cps.index(10)] if 10 in cps else cps
